@@ -202,6 +202,7 @@ def run_tlc(module, cfg, name, workers=None, timeout=600, simulate=None, depth=N
                               "-workers", str(workers or min(NCPU, 8)),
                               "-metadir", os.path.join(wdir, "md"),
                               "-noGenerateSpecTE",
+                              "-difftrace",          # traces print only what changed (cfg records are large)
                               "-config", cfgp]
     if simulate:
         cmd += ["-simulate", "num=%d" % simulate]
